@@ -97,7 +97,7 @@ def model_apply(v, op):
     raise ValueError(kind)
 
 
-def mutator_contract(style, n, op_name, op_builder, watched):
+def mutator_contract(style, n, op_name, op_builder, watched, stale=0):
     """op_builder(objs, keys, extra) -> (method name, call args as Vals, model op)"""
     def setup(I, st):
         U = I.U
@@ -118,7 +118,8 @@ def mutator_contract(style, n, op_name, op_builder, watched):
         if watched:
             I.dict_store(st, watchers, Conc("objects"), I.make_list(st, [Sym(U.fresh("watcher"))]))
         p, T = S.param_obj(I, st, "Selector", {"_objects": backing, "names": names, "watchers": watchers}, label="p", lazy=False)
-        proxy = I.make_list(st, objs, cls="ListProxy")
+        # a handle obtained earlier may lag behind: it misses the last `stale` objects
+        proxy = I.make_list(st, objs[:len(objs) - stale] if stale else objs, cls="ListProxy")
         st.heap[proxy.oid].fields["_parameter"] = p
 
         def trigger_event(I, st2, fv, args, kwargs, ctx):
@@ -154,7 +155,8 @@ def mutator_contract(style, n, op_name, op_builder, watched):
             if items is None or len(items) != len(objs):
                 return z3.BoolVal(False)
             return z3.And([same(I, a, b) for a, b in zip(items, objs)]) if objs else z3.BoolVal(True)
-        out.append(("list view == expected objects, in order", seq_eq(pits, want.objs)))
+        if not stale:
+            out.append(("list view == expected objects, in order", seq_eq(pits, want.objs)))
         out.append(("`_objects` == expected objects, in order", seq_eq(bits, want.objs)))
         if nd is None:
             out.append(("names is a mapping", z3.BoolVal(False)))
@@ -174,7 +176,8 @@ def mutator_contract(style, n, op_name, op_builder, watched):
             out.append(("notification is for 'objects'", z3.BoolVal(isinstance(notes[0][0], Conc) and notes[0][0].py == "objects")))
         return out
     return FunctionContract("%s:ListProxy.%s" % (MOD, op_builder(["?"] * n, ["k%d" % k for k in range(n)], ["?", "?"])[0]), PROP,
-                            setup, post, name="ListProxy.%s[%s-declared, %d objects%s]" % (op_name, style, n, ", watched" if watched else ""))
+                            setup, post, name="ListProxy.%s[%s-declared, %d objects%s%s]" % (
+                                op_name, style, n, ", watched" if watched else "", ", handle obtained %d mutation(s) earlier" % stale if stale else ""))
 
 
 def contracts():
@@ -205,6 +208,10 @@ def contracts():
                     C.append(mutator_contract("dict", n, "pop(k%d)" % i, lambda o, k, x, i=i: ("pop", [Conc(k[i])], ("popkey", k[i])), watched))
                     C.append(mutator_contract("dict", n, "pop(%d)" % i, lambda o, k, x, i=i: ("pop", [Conc(i)], ("popidx", i)), watched))
                     C.append(mutator_contract("dict", n, "remove(obj%d)" % i, lambda o, k, x, i=i: ("remove", [o[i]], ("remove", o[i])), watched))
+    # mutations through a handle obtained earlier (the parameter's own stores are the truth)
+    for n in (1, 2, 3):
+        C.append(mutator_contract("list", n, "append", lambda o, k, x: ("append", [x[0]], ("append", x[0])), False, stale=1))
+        C.append(mutator_contract("list", n, "extend", lambda o, k, x: ("extend", [TupV([x[0], x[1]])], ("extend", [x[0], x[1]])), False, stale=1))
     return C
 
 
